@@ -216,6 +216,18 @@ def erk_step(tab, f, x, t, h):
     return xn, qn, ks, qs
 
 
+def _inf_mask(b):
+    """which entries of a numeric bound are infinite (None: a parametric / symbolic bound has none)"""
+    if isinstance(b, ca.MX):
+        return None
+    try:
+        d = ca.DM(b)
+        vals = [float(v) for v in (d.e if hasattr(d, "e") else __import__("numpy").array(d).reshape(-1))]
+    except Exception:
+        return None
+    return [abs(v) == float("inf") for v in vals]
+
+
 class Oracle:
     def __init__(self, spec, meth):
         self.spec = spec
@@ -329,17 +341,37 @@ class Oracle:
 
     # -- constraints --------------------------------------------------------------------
     def add_constraint_at(self, c, ci, tag, get):
-        e = c.expr.on(get)
+        e = ca.MX(c.expr.on(get))
         sc = getattr(c, "scale_value", c.scale)
+        rhs, lhs = Con.bound(c.rhs, get), Con.bound(c.lhs, get)
+
+        def side(tg, sign, b):
+            """one row per component that HAS a bound on this side (an infinite entry bounds nothing), divided by its scale"""
+            mask = _inf_mask(b)
+            b = ca.MX(ca.DM(b)) if not isinstance(b, ca.MX) else b
+            if b.numel() == 1 and e.numel() > 1:
+                b = ca.repmat(b, e.numel(), 1)
+            scv = ca.MX(ca.DM(sc)) if not isinstance(sc, ca.MX) else sc
+            keep = [i for i in range(e.numel()) if not (mask and mask[i if len(mask) > 1 else 0])]
+            if len(keep) == e.numel():
+                self.add(tg, "le", sign * (e - b), sc)
+                return
+            for i in keep:
+                self.add(tg + ("component", i), "le", sign * (e[i] - b[i]), scv if scv.numel() == 1 else scv[i])
+            if c.kind != "box":
+                # a component without any bound is still a (free) row of the NLP
+                for i in range(e.numel()):
+                    if i not in keep:
+                        self.add(tg + ("unbounded-component", i), "free", e[i], scv if scv.numel() == 1 else scv[i])
         if c.kind == "le":
-            self.add(tag, "le", e - c.rhs, sc)
+            side(tag, 1, rhs)
         elif c.kind == "ge":
-            self.add(tag, "le", c.rhs - e, sc)
+            side(tag, -1, rhs)
         elif c.kind == "eq":
-            self.add(tag, "eq", e - c.rhs, sc)
+            self.add(tag, "eq", e - rhs, sc)
         elif c.kind == "box":
-            self.add(tag + ("lb",), "le", c.lhs - e, sc)
-            self.add(tag + ("ub",), "le", e - c.rhs, sc)
+            side(tag + ("lb",), -1, lhs)
+            side(tag + ("ub",), 1, rhs)
 
     def is_signal(self, c):
         sig = {"x", "u", "z", "t", "pc", "pcp", "vc", "vcp", "DT", "DT_control"}
